@@ -14,3 +14,9 @@ package utils
 //@   loop 1 invariant forall i int :: 0 <= i && i < $i ==> inDom(annotationsMap, annotations[i].Key)
 //@   loop 1 invariant forall k string :: inDom(annotationsMap, k) ==> exists i int :: 0 <= i && i < $i && annotations[i].Key == k && annotationsMap[k] == annotations[i].Values
 //@   loop 1 invariant forall i int :: 0 <= i && i < $i && (forall j int :: i < j && j < $i ==> annotations[j].Key != annotations[i].Key) ==> annotationsMap[annotations[i].Key] == annotations[i].Values
+
+// ParseAlias (descriptor lookups across includes, C15): a qualified name is cut at its LAST dot: the name is the text
+// after it, the prefix is the name with that ".name" tail removed (an include alias may itself contain dots).
+//@ func ParseAlias(tname string) (prefix, name string)
+//@   ensures indexOf(tname, ".") == -1 ==> prefix == "" && name == tname
+//@   ensures indexOf(tname, ".") >= 0 ==> name == lastSeg(tname, ".") && prefix == trimSuffix(tname, "." + name)
